@@ -20,6 +20,7 @@ import logging
 import random
 import re
 import sys
+import textwrap
 import threading
 import uuid
 from ast import literal_eval
@@ -674,7 +675,14 @@ class LLMGenerationActions:
                 lines = result.split("\n")
                 while True:
                     try:
-                        parse_colang_file("dynamic.co", content="\n".join(lines))
+                        # Validate what the runtime will parse: the body wrapped in a flow definition.
+                        parsed = parse_colang_file(
+                            "dynamic.co",
+                            content="define flow dynamic:\n"
+                            + textwrap.indent("\n".join(lines), "  "),
+                        )
+                        if len(parsed["flows"]) != 1:
+                            raise ValueError("The generated steps must form a single flow.")
                         break
                     except Exception as e:
                         # If we could not parse the flow on the last line, we return a general response
